@@ -173,10 +173,12 @@ def run(M, rep, tier, only=None):
                 nref += 1
         if bad is None and cn == "SourceLinkContainer":
             # the tree search must select by id (the lambda compares ids)
-            lam = [n for n in ast.walk(f.node) if isinstance(n, ast.Lambda)]
-            okl = any(isinstance(l.body, ast.Compare) and any(isinstance(x, ast.Attribute) and x.attr == "id"
-                                                              for x in ast.walk(l.body)) and
-                      sum(1 for x in ast.walk(l.body) if isinstance(x, ast.Attribute) and x.attr == "id") >= 2 for l in lam)
+            # (a lambda, a nested function or an inline comparison -- any comparison of two `.id` values in the member
+            # or in the helpers it calls in its own class)
+            nodes = [f.node] + [g.node for g in M.funcs.values() if g.cls is not None and g.cls.name in (cn, "LinkContainer")
+                                and g.node.name.startswith("_") and not g.node.name.startswith("__")]
+            okl = any(isinstance(c_, ast.Compare) and sum(1 for x in ast.walk(c_) if isinstance(x, ast.Attribute) and x.attr == "id") >= 2
+                      for nd in nodes for c_ in ast.walk(nd))
             if not okl:
                 bad = (None, "the source-tree search does not compare ids")
         if bad:
